@@ -47,14 +47,16 @@ func (s *Server) tagList(repoStr string) http.HandlerFunc {
 		sort.Strings(tl.Tags)
 		n := r.URL.Query().Get("n")
 		if n != "" {
-			if nInt, err := strconv.Atoi(n); err == nil && len(tl.Tags) > nInt {
+			if nInt, err := strconv.Atoi(n); err == nil && nInt >= 0 && len(tl.Tags) > nInt {
 				tl.Tags = tl.Tags[:nInt]
-				// add next header for pagination
-				next := r.URL
-				q := next.Query()
-				q.Set("last", tl.Tags[len(tl.Tags)-1])
-				next.RawQuery = q.Encode()
-				w.Header().Add("Link", fmt.Sprintf("<%s>; rel=next", next.String()))
+				if nInt > 0 {
+					// add next header for pagination
+					next := r.URL
+					q := next.Query()
+					q.Set("last", tl.Tags[len(tl.Tags)-1])
+					next.RawQuery = q.Encode()
+					w.Header().Add("Link", fmt.Sprintf("<%s>; rel=next", next.String()))
+				}
 			}
 		}
 		tlJSON, err := json.Marshal(tl)
